@@ -202,3 +202,121 @@ def trivia_correspondence(ctx: fw.Ctx):
                 ctx.tie_break("correspondence", f"trivia function {rq[0]} disagrees", request=rq, implementation=ex, model=got)
     ctx.count("trivia_corr_requests", len(reqs))
     ctx.count("trivia_corr_disagreements", bad)
+
+
+# ---------------------------------------------------------------- L3-L5 tie: container fragment, whole round trip
+_PY_ERR = {"ValueError": "value", "KeyError": "key", "TypeError": "type", "OSError": "os",
+           "NixSyntaxError": "syntax", "ResolutionError": "resolution"}
+
+
+def _real_roundtrip(text: str):
+    from nix_manipulator import parse
+
+    try:
+        src = parse(text)
+        if src.contains_error:
+            return ["flagged-erroneous"]
+        return ["ok", fw.hx(src.rebuild())]
+    except Exception as exc:  # noqa: BLE001
+        n = type(exc).__name__
+        return ["err", _PY_ERR.get(n, "internal:" + n)]
+
+
+def fragment_inputs(ctx: fw.Ctx):
+    """(origin, text) of every input of the fragment tie: (a) every template x gap x trivia-menu entry
+    of the sweep, (b) random fragment programs. Membership in the fragment is decided afterwards."""
+    from .gen import frag
+
+    for info, text in prog.enumerate_injections():
+        yield "sweep", text
+    n = 2400 if ctx.quick else 30000
+    for text in frag.programs(ctx.rng, n):
+        yield "random", text
+
+
+def fragment_correspondence(ctx: fw.Ctx):
+    """Model/Cst.lean + FromCst.lean + Rebuild.lean vs source_code.py / set.py / binding.py / list.py /
+    primitive.py / trivia.py, whole round trip: the REAL tree-sitter tree of every input that lies in
+    the container fragment is converted to the model's `Cst` (harness/cstdump.py; the parser contract
+    `flatten(cst) == text` is checked on the way), the Lean driver parses and rebuilds it with the
+    model, and the text must equal `parse(text).rebuild()` of the implementation. On the same inputs
+    the piece-level renderer (the one the theorems are about) must concatenate to the same text and
+    its token / comment pieces must be exactly the leaves tree-sitter finds in the real output (the
+    assumption `concat pieces lexes to pieces`, checked per sample)."""
+    from . import cstdump
+    from .oracle import cstread
+
+    cov = {"sweep_inputs": 0, "sweep_inside": 0, "random_inputs": 0, "random_inside": 0, "outside": {},
+           "model_uncovered": {}, "compared": 0, "disagreements": 0, "contract_checked": 0}
+    texts, reqs = [], []
+    for origin, text in fragment_inputs(ctx):
+        cov[origin + "_inputs"] += 1
+        try:
+            tree = cstdump.dump(text)
+        except cstdump.OutsideFragment as exc:
+            why = str(exc)
+            cov["outside"][why] = cov["outside"].get(why, 0) + 1
+            continue
+        except cstdump.ContractBroken as exc:
+            ctx.tie_break("parser-contract", str(exc), request={"text": text})
+            continue
+        cov["contract_checked"] += 1
+        sx = cstdump.sexp(tree)
+        texts.append((origin, text, tree))
+        reqs.append(["roundtrip", sx])
+        reqs.append(["pieces", sx])
+        reqs.append(["flatten", sx])
+    replies = ctx.driver.ask_many(reqs)
+    bad = 0
+    for k, (origin, text, tree) in enumerate(texts):
+        got, pieces, flat = replies[3 * k], replies[3 * k + 1], replies[3 * k + 2]
+        if flat != ["ok", fw.hx(text)]:
+            bad += 1
+            if bad <= 5:
+                ctx.tie_break("correspondence", "model flatten(cst) differs from the text the tree was parsed from",
+                              request={"text": text}, implementation=fw.hx(text), model=flat)
+            continue
+        if got and got[0] == "uncovered":
+            cov["model_uncovered"][got[1]] = cov["model_uncovered"].get(got[1], 0) + 1
+            continue
+        cov[origin + "_inside"] += 1
+        cov["compared"] += 1
+        ctx.corr_checked += 1
+        want = _real_roundtrip(text)
+        if want != got:
+            bad += 1
+            if bad <= 5:
+                ctx.tie_break("correspondence", "fragment round trip: implementation and model disagree",
+                              request={"text": text},
+                              implementation=fw.unhx(want[1]) if want[0] == "ok" else want,
+                              model=fw.unhx(got[1]) if got[0] == "ok" else got)
+            continue
+        if got[0] != "ok":
+            continue
+        out = fw.unhx(got[1])
+        if not pieces or pieces[0] != "ok":
+            bad += 1
+            if bad <= 5:
+                ctx.tie_break("correspondence", "piece-level renderer failed where the string-level one did not",
+                              request={"text": text}, model=pieces)
+            continue
+        ps = [(p[0], fw.unhx(p[1])) for p in pieces[1:]]
+        if "".join(t for _, t in ps) != out:
+            bad += 1
+            if bad <= 5:
+                ctx.tie_break("correspondence", "pieces do not concatenate to the rebuilt text", request={"text": text},
+                              implementation=out, model=ps)
+            continue
+        root = cstread.ts_parse(out)
+        ob = out.encode("utf-8")
+        leaves = [("c" if n.type == "comment" else "t", ob[n.start_byte:n.end_byte].decode("utf-8"))
+                  for n in cstread.leaves(root) if n.end_byte > n.start_byte]
+        mine = [(k2, t) for k2, t in ps if k2 != "w"]
+        if root.has_error or leaves != mine:
+            # not a tie break by itself: the output is what the implementation produced; it is the
+            # property checks (C01 tokens / C03 comments) that judge it. Counted for the record.
+            ctx.count("fragment_pieces_not_lexed_as_such")
+    cov["disagreements"] = bad
+    ctx.count("fragment_corr_compared", cov["compared"])
+    ctx.count("fragment_corr_disagreements", bad)
+    ctx.extra["fragment"] = cov
